@@ -3,7 +3,7 @@
    publish (Pages), assigns page ids to the pages that have none, links them, writes them in one transaction together
    with the queue header (head / tail positions, page count), and releases the pages that are no longer needed
    (Reset). A flush may fail before the page allocation (nothing changes) or after it (the ids are taken back).
-   The model keeps the released pages (w_hist) and emits the page images of every successful flush, so that the
+   The model keeps the released pages (ws_hist) and emits the page images of every successful flush, so that the
    theorems can talk about the complete chain of pages ever written. *)
 From VF Require Export PQ.
 From Coq Require Import Lia.
@@ -158,17 +158,17 @@ Record qroot := { q_head : option (Z * nat * Z); q_tail : Z * nat * Z; q_inuse :
 Definition wimage := (Z * Z * Z * Z * nat * list Z)%type.
 Definition image_of (p : wpage) : wimage := (wp_id p, wp_next p, wp_first p, wp_last p, wp_off p, wp_data p).
 
-Record wst := { w_buf : wbuf; w_evBytes : Z; w_evId : Z; w_active : Z; w_root : qroot; w_hist : list wpage }.
+Record wst := { ws_buf : wbuf; ws_evBytes : Z; ws_evId : Z; ws_active : Z; ws_root : qroot; ws_hist : list wpage }.
 
 Inductive foutcome := FOk (ids : list Z) | FFailEarly | FFailLate (ids : list Z).
 (* result of a flush: None = nothing to do; Some (ok, images, pages, allocated) *)
 Inductive fresult := FNothing | FDone (imgs : list wimage) (pages allocated : Z) | FFailed (pages allocated : Z).
 
 Definition with_buf (s : wst) (b : wbuf) : wst :=
-  {| w_buf := b; w_evBytes := w_evBytes s; w_evId := w_evId s; w_active := w_active s; w_root := w_root s; w_hist := w_hist s |}.
+  {| ws_buf := b; ws_evBytes := ws_evBytes s; ws_evId := ws_evId s; ws_active := ws_active s; ws_root := ws_root s; ws_hist := ws_hist s |}.
 
 Definition do_flush (s : wst) (fo : foutcome) : wst * fresult :=
-  let b := w_buf s in
+  let b := ws_buf s in
   let '(n, reported) := flush_range b in
   match n with
   | O => (s, FNothing)
@@ -194,10 +194,10 @@ Definition do_flush (s : wst) (fo : foutcome) : wst * fresult :=
                         | Some (i, off) => if (i =? n1)%nat then off else (pgH + length (wp_data last))%nat
                         | None => (pgH + length (wp_data last))%nat
                         end in
-          let r := w_root s in
+          let r := ws_root s in
           let root' := {| q_head := match q_head r with Some h => Some h
                                     | None => Some (wp_id first, wp_off first, wp_first first) end;
-                          q_tail := (wp_id last, endOff, w_evId s);
+                          q_tail := (wp_id last, endOff, ws_evId s);
                           q_inuse := q_inuse r + allocated |} in
           let clean := map (set_dirty false) range2 ++ rest in
           let k := reset_end clean O (option_map fst (b_hdr b)) n1 in
@@ -205,8 +205,8 @@ Definition do_flush (s : wst) (fo : foutcome) : wst * fresult :=
                        b_avail := b_avail b + sum_data (firstn k clean);
                        b_hdr := match b_hdr b with Some (i, off) => Some ((i - k)%nat, off) | None => None end;
                        b_count := b_count b - Z.of_nat k |} in
-          ({| w_buf := b'; w_evBytes := w_evBytes s; w_evId := w_evId s; w_active := w_active s; w_root := root';
-              w_hist := w_hist s ++ firstn k clean |},
+          ({| ws_buf := b'; ws_evBytes := ws_evBytes s; ws_evId := ws_evId s; ws_active := ws_active s; ws_root := root';
+              ws_hist := ws_hist s ++ firstn k clean |},
            FDone (map image_of range2) reported allocated)
       end
   end.
@@ -219,8 +219,8 @@ Definition flush_buffer (s : wst) (fo : foutcome) : wst * wres :=
   let '(s1, r) := do_flush s fo in
   match r with
   | FFailed _ _ => (s1, WErr r)
-  | _ => ({| w_buf := w_buf s1; w_evBytes := w_evBytes s1; w_evId := w_evId s1; w_active := 0; w_root := w_root s1;
-             w_hist := w_hist s1 |}, WOk (Some (r, w_active s)))
+  | _ => ({| ws_buf := ws_buf s1; ws_evBytes := ws_evBytes s1; ws_evId := ws_evId s1; ws_active := 0; ws_root := ws_root s1;
+             ws_hist := ws_hist s1 |}, WOk (Some (r, ws_active s)))
   end.
 
 Inductive wop := WWrite (data : list Z) (fo : foutcome) | WNext (fo : foutcome) | WFlush (fo : foutcome).
@@ -229,18 +229,18 @@ Definition w_step (s : wst) (o : wop) : wst * wres :=
   match o with
   | WWrite data fo =>
       let go (s1 : wst) :=
-        {| w_buf := append (w_buf s1) data; w_evBytes := w_evBytes s1 + Z.of_nat (length data); w_evId := w_evId s1;
-           w_active := w_active s1; w_root := w_root s1; w_hist := w_hist s1 |} in
-      if b_avail (w_buf s) <=? Z.of_nat (length data) then
+        {| ws_buf := append (ws_buf s1) data; ws_evBytes := ws_evBytes s1 + Z.of_nat (length data); ws_evId := ws_evId s1;
+           ws_active := ws_active s1; ws_root := ws_root s1; ws_hist := ws_hist s1 |} in
+      if b_avail (ws_buf s) <=? Z.of_nat (length data) then
         match flush_buffer s fo with
         | (s1, WErr r) => (s1, WErr r)
         | (s1, ok) => (go s1, ok)
         end
       else (go s, WOk None)
   | WNext fo =>
-      let b1 := reserve_hdr (commit_event (set_hdr_size (w_buf s) (w_evBytes s)) (w_evId s)) in
-      let s1 := {| w_buf := b1; w_evBytes := 0; w_evId := w_evId s + 1; w_active := w_active s + 1; w_root := w_root s;
-                   w_hist := w_hist s |} in
+      let b1 := reserve_hdr (commit_event (set_hdr_size (ws_buf s) (ws_evBytes s)) (ws_evId s)) in
+      let s1 := {| ws_buf := b1; ws_evBytes := 0; ws_evId := ws_evId s + 1; ws_active := ws_active s + 1; ws_root := ws_root s;
+                   ws_hist := ws_hist s |} in
       if b_avail b1 <=? Z.of_nat hdr_len then flush_buffer s1 fo else (s1, WOk None)
   | WFlush fo => flush_buffer s fo
   end.
@@ -259,6 +259,6 @@ Definition w_init (pages : Z) (tail : option wpage) (endId : Z) (r : qroot) : ws
             | Some t => {| b_pages := [t]; b_avail := Z.of_nat payload * pages - Z.of_nat (length (wp_data t));
                            b_hdr := None; b_count := 1 |}
             end in
-  {| w_buf := reserve_hdr b0; w_evBytes := 0; w_evId := endId; w_active := 0; w_root := r; w_hist := [] |}.
+  {| ws_buf := reserve_hdr b0; ws_evBytes := 0; ws_evId := endId; ws_active := 0; ws_root := r; ws_hist := [] |}.
 
 End Writer.
